@@ -509,17 +509,26 @@ func (idx *KVIndex) FieldTermNumberRange(field string, min, max float64) chan KV
 	}
 
 	if min < 0 {
-		minPrefix := EntryValuePrefix(field, TermNumber, minBytes)
-		maxPrefix := EntryValuePrefix(field, TermNumber, maxBytes)
-		if max > 0 {
-			maxPrefix = EntryValuePrefix(field, TermNumber, floatPosInfBytes)
-		}
+		//the keys of the negative numbers come after the positive ones, the lowest number
+		//last: scan them backwards, starting behind the entries of min, which end right
+		//before the entries of the next number below min
+		below := make([]byte, 8)
+		binary.BigEndian.PutUint64(below, binary.BigEndian.Uint64(minBytes)+1)
+		start := EntryValuePrefix(field, TermNumber, below)
+		prefix := EntryTypePrefix(field, TermNumber)
 		idx.KV.View(func(it kvi.KVIterator) error {
 			var count uint64
 			last := math.Inf(1)
-			for it.SeekReverse(minPrefix); it.Valid() && bytes.Compare(maxPrefix, it.Key()) < 0; it.Next() {
+			for it.SeekReverse(start); it.Valid() && bytes.HasPrefix(it.Key(), prefix); it.Next() {
 				_, _, term, _ := EntryKeyParse(it.Key())
 				val := GetBytesTerm(term, TermNumber).(float64)
+				if val < min {
+					continue
+				}
+				//stop at max and where the positive numbers begin
+				if val >= max || !math.Signbit(val) {
+					break
+				}
 				if val != last {
 					if count > 0 {
 						out <- KVTermCount{Number: last, Count: count}
